@@ -283,15 +283,15 @@ def crash_point_job(arg):
     if fault:
         sc, k, relpath = fault
         log = work + ".log"
-        r1 = invoke(ws, work, "", strace_inject=f"{sc}:signal=SIGKILL:when={k}", log=log)
+        r1 = invoke(ws, work, "", package_dir_arg=ws["package_dir"], strace_inject=f"{sc}:signal=SIGKILL:when={k}", log=log)
         calls, code = parse_log(log, work)
         hit = [c for c in calls if c[0] == sc and c[1] == k]
         if not hit or hit[0][2] != relpath:
             shutil.rmtree(work, ignore_errors=True)
             return ("MACHINERY", f"crash point {fault}: the kill was not delivered at the recorded call (saw {hit[:1]})", None)
         info = f"first run killed before {sc}#{k} on {relpath}"
-    r2 = invoke(ws, work, "")
-    v = judge_clean(ws, work, "", False, None, r2, f"{ws['name']} second run after {info}")
+    r2 = invoke(ws, work, "", package_dir_arg=ws["package_dir"])
+    v = judge_clean(ws, work, "", False, ws["package_dir"], r2, f"{ws['name']} second run after {info}")
     left = None
     shutil.rmtree(work, ignore_errors=True)
     if os.path.exists(work + ".log"):
@@ -397,7 +397,7 @@ def run(ctx):
         for i in range(2):
             shutil.rmtree(pkgdir, ignore_errors=True)
             log = os.path.join(ctx.scratch, f"{ws['name']}.rec{i}.log")
-            r = invoke(ws, root, "", log=log)
+            r = invoke(ws, root, "", package_dir_arg=ws["package_dir"], log=log)
             if r.returncode != 0:
                 raise Machinery(f"recording run of {ws['name']} failed: {r.stderr[-300:]!r}")
             calls, code = parse_log(log, root)
